@@ -24,6 +24,7 @@ import (
 	"go.temporal.io/server/common/log"
 	"google.golang.org/grpc/metadata"
 
+	"github.com/temporalio/s2s-proxy/common"
 	"github.com/temporalio/s2s-proxy/config"
 	"github.com/temporalio/s2s-proxy/encryption"
 	vrt "github.com/temporalio/s2s-proxy/internal/verifrt"
@@ -37,6 +38,8 @@ type vfOpen struct {
 	ServerCluster string `json:"sc"`
 	ServerShard   string `json:"ss"`
 	Keep          bool   `json:"keep"` // leave the stream open while the next one is opened
+	// Intra: the open carries the intra-proxy headers (a peer proxy instance forwarding a stream: its own stream mode)
+	Intra bool `json:"intra,omitempty"`
 }
 
 type vfC20Job struct {
@@ -61,6 +64,11 @@ func vfMDStream(o vfOpen) *vfServerStream {
 	set(history.MetadataKeyClientShardID, o.ClientShard)
 	set(history.MetadataKeyServerClusterID, o.ServerCluster)
 	set(history.MetadataKeyServerShardID, o.ServerShard)
+	if o.Intra {
+		md.Set(common.IntraProxyHeaderKey, common.IntraProxyHeaderValue)
+		md.Set(common.IntraProxyOriginProxyIDHeader, "peer-proxy")
+		md.Set(common.IntraProxyHopCountHeader, "1")
+	}
 	ctx, cancel := context.WithCancel(metadata.NewIncomingContext(context.Background(), md))
 	return &vfServerStream{ctx: ctx, cancel: cancel, recvQ: make(chan vfItem, 16), brk: make(chan struct{})}
 }
@@ -95,6 +103,16 @@ func vfRunC20(t *testing.T, job *vfC20Job) (out vfC20Out) {
 				rp = RoutingParameters{OverrideShardCount: 2, RoutingLocalShardCount: 3, DirectionLabel: "outbound"}
 				sm = NewShardManager(nil, scc, encryption.TLSConfig{}, vfNoopLoggers())
 				_ = sm.Start(lifetime)
+			case "routing-with-peers":
+				// routing mode on an instance that is part of a memberlist cluster (it has an intra-proxy manager); what Start
+				// does minus opening memberlist sockets
+				scc = config.ShardCountConfig{Mode: config.ShardCountRouting, LocalShardCount: 2, RemoteShardCount: 3}
+				rp = RoutingParameters{OverrideShardCount: 2, RoutingLocalShardCount: 3, DirectionLabel: "outbound"}
+				mc := &config.MemberlistConfig{Enabled: true, NodeName: "n1", ProxyAddresses: map[string]string{"n1": "verif-n1:7233", "peer-proxy": "verif-n2:7233"}}
+				smi := NewShardManager(mc, scc, encryption.TLSConfig{}, vfNoopLoggers()).(*shardManagerImpl)
+				smi.SetupCallbacks()
+				smi.started = true
+				sm = smi
 			}
 			srv := NewAdminServiceProxyServer("c20", client, client, AdminServiceOverrides{}, []string{"x"}, observer.ReportStreamValue, scc, lcm, rp, vfNoopLoggers(), sm, lifetime)
 			type live struct {
@@ -149,7 +167,7 @@ func vfRunC20(t *testing.T, job *vfC20Job) (out vfC20Out) {
 					break
 				}
 				outcome = append(outcome, fmt.Sprintf("ended=%v err=%v", l.ended, l.err != nil))
-				if l.ended && l.err == nil {
+				if l.ended && l.err == nil && !o.Intra {
 					// nobody ended this stream (the initiator sent nothing and did not hang up, no source stream ended): a
 					// handler that returns at once without an error closes the stream with status OK - neither served nor rejected
 					violate("stream-neither-served-nor-rejected", fmt.Sprintf("open %+v: the handler returned at once without an error (the initiator sees a clean end of stream)", o))
@@ -171,7 +189,7 @@ func vfRunC20(t *testing.T, job *vfC20Job) (out vfC20Out) {
 				if !blocked("after the well-formed open") {
 					if good.ended {
 						violate("well-formed-stream-refused", fmt.Sprintf("after opens %+v the well-formed stream ended at once: %v", job.Opens, good.err))
-					} else if job.Mode != "routing" {
+					} else if !strings.HasPrefix(job.Mode, "routing") {
 						if len(clientStreams) != nClient+1 {
 							violate("well-formed-stream-not-served", "no stream was opened towards the source for the well-formed open")
 						} else {
@@ -278,7 +296,7 @@ var vfC20PairAlphabet = []string{"-1", "1024", "1025", "65536", "238609294", "47
 func vfC20Histories(thorough bool) []vfC20Job {
 	var jobs []vfC20Job
 	good := vfOpen{ClientCluster: "2", ClientShard: "3", ServerCluster: "1", ServerShard: "3"}
-	for _, mode := range []string{"default", "lcm", "routing"} {
+	for _, mode := range []string{"default", "lcm", "routing", "routing-with-peers"} {
 		for _, keep := range []bool{false, true} {
 			for _, v := range vfC20ServerShardAlphabet {
 				o := good
@@ -321,6 +339,29 @@ func vfC20Histories(thorough bool) []vfC20Job {
 					o3.ServerShard, o3.ClientShard, o3.Keep = a, b, keep
 					jobs = append(jobs, vfC20Job{Mode: mode, Opens: []vfOpen{o3}})
 				}
+			}
+			if strings.HasPrefix(mode, "routing") {
+				// the intra-proxy stream mode: an ordinary stream is up (its client shard is local to this instance), then a
+				// peer instance opens a forwarded stream for that shard with every kind of id on its own side - equal and
+				// different cluster ids included; the forwarded stream ends when its initiator goes away
+				base := good
+				base.Keep = true
+				for _, cc := range []string{"2", "1", "0", "-1", "abc", vfMissing} {
+					for _, cs := range []string{"9", "3", "0", "-1", "65536", "abc"} {
+						in := vfOpen{ClientCluster: cc, ClientShard: cs, ServerCluster: "2", ServerShard: "3", Keep: keep, Intra: true}
+						jobs = append(jobs, vfC20Job{Mode: mode, Opens: []vfOpen{base, in}})
+						in2 := vfOpen{ClientCluster: "2", ClientShard: "3", ServerCluster: cc, ServerShard: cs, Keep: keep, Intra: true}
+						jobs = append(jobs, vfC20Job{Mode: mode, Opens: []vfOpen{base, in2}})
+					}
+				}
+				// a stream-open that reuses the ids of a stream that is still up (a reconnect overtaking the teardown, a
+				// bogus duplicate)
+				dup := good
+				dup.Keep = true
+				jobs = append(jobs, vfC20Job{Mode: mode, Opens: []vfOpen{dup, dup}})
+				dup2 := dup
+				dup2.Keep = keep
+				jobs = append(jobs, vfC20Job{Mode: mode, Opens: []vfOpen{dup, dup2, dup2}})
 			}
 			if thorough {
 				for _, a := range vfC20PairAlphabet {
